@@ -176,4 +176,12 @@ def thorough_specs():
         if repr(s) not in seen:
             seen.add(repr(s))
             out.append(("fam3", s))
-    return out
+    # the three-slot family is covered by a fixed stride of its enumeration order (every 6th plan; the
+    # enumeration varies the last slot fastest, so every kind / edge / attachment choice of the first two
+    # slots still occurs): the full family costs about 40 minutes per property on 16 cores
+    fam3 = [x for x in out if x[0] == "fam3"]
+    keep = {id(x) for x in fam3[::FAM3_STRIDE]}
+    return [x for x in out if x[0] != "fam3" or id(x) in keep]
+
+
+FAM3_STRIDE = 6
